@@ -183,7 +183,144 @@ func (c *Ctx) mapNonNil(p *Prover, m ssa.Value, at ssa.Instruction) (bool, strin
 			}
 		}
 	}
+	if fv, _ := loadedField(m); fv != nil {
+		if ok, why := c.fieldAlwaysMade(fv); ok {
+			return true, why
+		}
+	}
 	return false, "map operand may be nil"
+}
+
+// fieldAlwaysMade: type invariant "map field fv of a module struct is never
+// nil": every store to it anywhere in the module stores a freshly made map,
+// every allocation of the struct is in a function that stores a made map to
+// that allocation's field, and the struct type is never embedded by value in
+// another struct, array or package-level variable (no zero value arises).
+func (c *Ctx) fieldAlwaysMade(fv *types.Var) (bool, string) {
+	if v, ok := c.madeMemo[fv]; ok {
+		return v, "type invariant: every " + fv.Name() + " map is made in its constructor and never replaced by anything else"
+	}
+	if c.madeMemo == nil {
+		c.madeMemo = map[*types.Var]bool{}
+	}
+	c.madeMemo[fv] = false
+	var owner *types.Named
+	for _, pk := range []*ssa.Package{c.Client, c.State} {
+		for _, m := range pk.Members {
+			tn, ok := m.(*ssa.Type)
+			if !ok {
+				continue
+			}
+			st, ok := tn.Type().Underlying().(*types.Struct)
+			if !ok {
+				continue
+			}
+			for i := 0; i < st.NumFields(); i++ {
+				if st.Field(i) == fv {
+					owner, _ = tn.Type().(*types.Named)
+				}
+			}
+		}
+	}
+	if owner == nil {
+		return false, ""
+	}
+	// no by-value embedding
+	var byValue func(t types.Type, depth int) bool
+	byValue = func(t types.Type, depth int) bool {
+		if depth > 4 {
+			return false
+		}
+		switch u := t.(type) {
+		case *types.Named:
+			if u == owner {
+				return true
+			}
+			return byValue(u.Underlying(), depth+1)
+		case *types.Struct:
+			for i := 0; i < u.NumFields(); i++ {
+				if byValue(u.Field(i).Type(), depth+1) {
+					return true
+				}
+			}
+		case *types.Array:
+			return byValue(u.Elem(), depth+1)
+		case *types.Slice:
+			return byValue(u.Elem(), depth+1)
+		case *types.Map:
+			return byValue(u.Elem(), depth+1)
+		case *types.Chan:
+			return byValue(u.Elem(), depth+1)
+		}
+		return false
+	}
+	for _, pk := range []*ssa.Package{c.Client, c.State} {
+		for _, m := range pk.Members {
+			switch t := m.(type) {
+			case *ssa.Type:
+				if nt, ok := t.Type().(*types.Named); ok && nt != owner && byValue(nt.Underlying(), 0) {
+					return false, ""
+				}
+			case *ssa.Global:
+				if pt, ok := t.Type().(*types.Pointer); ok && byValue(pt.Elem(), 0) {
+					return false, ""
+				}
+			}
+		}
+	}
+	ok := true
+	nAlloc := 0
+	for _, fn := range c.ModFuncs {
+		if fn.Package() != c.Client && fn.Package() != c.State {
+			continue
+		}
+		funcInstrs(fn, func(in ssa.Instruction) {
+			switch t := in.(type) {
+			case *ssa.Store:
+				if f, _ := fieldOf(t.Addr); f == fv {
+					if _, isMk := t.Val.(*ssa.MakeMap); !isMk {
+						ok = false
+					}
+				}
+				// whole-struct store *p = T{...} would bypass the field store
+				if pt, isP := t.Addr.Type().Underlying().(*types.Pointer); isP && types.Identical(pt.Elem(), owner) {
+					ok = false
+				}
+			case *ssa.Alloc:
+				pt, _ := t.Type().Underlying().(*types.Pointer)
+				if pt == nil || !byValue(pt.Elem(), 0) {
+					return
+				}
+				if !types.Identical(pt.Elem(), owner) {
+					ok = false // array / struct containing it
+					return
+				}
+				nAlloc++
+				made := false
+				for _, ref := range *t.Referrers() {
+					if fa, isFA := ref.(*ssa.FieldAddr); isFA {
+						if f, _ := fieldOf(fa); f == fv {
+							for _, r2 := range *fa.Referrers() {
+								if st, isSt := r2.(*ssa.Store); isSt && st.Addr == fa {
+									if _, isMk := st.Val.(*ssa.MakeMap); isMk && st.Block() == t.Block() {
+										made = true
+									}
+								}
+							}
+						}
+					}
+				}
+				if !made {
+					ok = false
+				}
+			}
+		})
+	}
+	if nAlloc == 0 {
+		ok = false
+	}
+	c.madeMemo[fv] = ok
+	return ok, "type invariant: every " + fv.Name() + " map is made in its constructor and never replaced by anything else"
 }
 
 // ---------- the unprotected region ----------
